@@ -832,6 +832,7 @@ def register(w):
         ("step_pointwise_operators_with_scalar_side_operands_commute_with_transpose", law("step")),
         ("conclusion_inverse_transpose_of_the_last_chain_value_is_the_chain_on_the_source", law("end"))]))
     register_orphans(w)
+    register_swish(w)
 
     # ---- bounded stand-in for the transactions that are not under contract (T4-T7): labelled bounded, never counted as proved
     def bounded_dag(world, c, out):
@@ -1011,3 +1012,148 @@ def register_orphans(w):
         modifies=[(GRAPH, "nodes")],
     ))
     w.trust("removing a node none of whose outputs is read by a node, listed as a graph output or captured by a nested body changes no observable value (dead code)")
+
+
+# =====================================================================
+# T12  rewrite_mul_sigmoid_as_swish_ir:  Mul(x, Sigmoid(x))  ==>  Swish(x)        (opset >= 24: C11)
+# =====================================================================
+def register_swish(w):
+    sel = z3.Select
+    N, V = ref_sort(NODE), ref_sort(VALUE)
+    nested_ref = w.c02_preds["nested_ref"]
+    observed_as_output = w.c02_observed_as_output
+    unobserved_except = w.txn_unobserved_except
+    hv = w.graph_hv
+    from specs import ctxmodel
+    ctxmodel.register(w)
+
+    def name_of(ex, v):
+        na = ex.heap_arrays(VALUE, "name")
+        return sel(na[0], v), sel(na[1], v)
+
+    def same_value(ex, a, b):
+        """the code's _same_value: identical, or carrying the same non-empty name (names are unique: the same value)"""
+        an, av = name_of(ex, a)
+        bn, bv = name_of(ex, b)
+        return z3.Or(a == b, z3.And(z3.Not(an), z3.Not(bn), z3.Length(av) > 0, av == bv))
+
+    def produces(ex, n, v):
+        outs = ex.heap_arrays(NODE, "outputs")
+        i = z3.Int("i!ps")
+        return z3.Exists([i], z3.And(0 <= i, i < sel(outs[1], n), sel(sel(outs[0], n), i) == v))
+
+    def term_of(v):
+        if isinstance(v, VRef):
+            return v.term
+        if isinstance(v, VNone):
+            return null_of(VALUE)
+        if isinstance(v, VOpt):
+            return z3.If(v.isnone, null_of(VALUE), v.val.term)
+        raise OutOfSubset(f"optional value of unexpected kind {v!r}")
+
+    # _match_mul_sigmoid_silu_inputs(nodes, lhs, rhs): (x, S) with S a Sigmoid reading x and producing one operand, x being the other operand
+    def post_match(c: Ctx):
+        r = c.result
+        if isinstance(r, VNone):
+            return z3.BoolVal(True)
+        ex = c.ex
+        x, S = r.items
+        lhs, rhs = term_of(c["lhs"]), term_of(c["rhs"])
+        ins = ex.heap_arrays(NODE, "inputs")
+        op = sel(ex.heap_arrays(NODE, "op_type")[0], S.term)
+        pat = lambda so, pt: z3.And(so != null_of(VALUE), pt != null_of(VALUE), produces(ex, S.term, so), same_value(ex, x.term, pt))  # noqa: E731
+        return z3.And(op == z3.StringVal("Sigmoid"), sel(ins[1], S.term) == 1, x.term == sel(sel(ins[0], S.term), 0), x.term != null_of(VALUE),
+                      z3.Or(pat(lhs, rhs), pat(rhs, lhs)))
+    w.add_contract(Contract(
+        f"{MO}:_match_mul_sigmoid_silu_inputs", params={"nodes": Seq(Ref(NODE)), "lhs": Opt(Ref(VALUE)), "rhs": Opt(Ref(VALUE))}, ret=Opt(Tup(Ref(VALUE), Ref(NODE))),
+        ensures=[("result_is_the_sigmoid_of_the_other_operand", post_match)], raises=set(), props=["C02"], witnesses=["C02_misc_rewrites_family"],
+    ))
+
+    def wf12(ex, graph):
+        n = z3.Const("n!wf", N)
+        op = sel(ex.heap_arrays(NODE, "op_type")[0], n)
+        return [("every_node_has_an_output", z3.ForAll([n], sel(ex.heap_arrays(NODE, "outputs")[1], n) >= 1)),
+                ("mul_and_sigmoid_nodes_have_one_output", z3.ForAll([n], z3.Implies(z3.Or(op == z3.StringVal("Mul"), op == z3.StringVal("Sigmoid")), sel(ex.heap_arrays(NODE, "outputs")[1], n) == 1)))]
+
+    def hook12(lc):
+        ex = lc.ex
+        graph = lc["graph"].term
+        if lc.phase == "assume":
+            ex.events[:] = [e for e in ex.events if not (e and e[0] in ("mut", "node"))]
+            for f in structurally_valid(ex):
+                ex.pc.append(f)
+            return wf12(ex, graph)
+        E = muts(ex)
+        obl = wf12(ex, graph)
+        if lc.phase != "inv-step" or not E:
+            return obl
+        kinds = [e[1] for e in E if e[1] != "set_meta"]
+        made = [e for e in ex.events if e and e[0] == "node"]
+        node, sig, x_val = lc.get("node"), lc.get("sigmoid_node"), lc.get("x_val")
+        ok = kinds[:3] == ["insert_before", "rauw", "remove"] and all(k_ == "remove" for k_ in kinds[3:]) and len(kinds) <= 4 and len(made) == 1 \
+            and isinstance(node, VRef) and isinstance(sig, VRef) and isinstance(x_val, VRef)
+        obl.append(("txn-effect:T12.events_are_insert_bypass_remove", z3.BoolVal(ok)))
+        if not ok:
+            return obl
+        ins_e, rauw, rem = [e for e in E if e[1] == "insert_before"][0], [e for e in E if e[1] == "rauw"][0], [e for e in E if e[1] == "remove"]
+        P = Pre(ex, E[0][-3])
+        hv0 = E[0][-2]["hv"]
+        new_node = made[0][1]
+        a_old, b_new = rauw[2].term, rauw[3].term
+        cur_in = ex.heap_arrays(NODE, "inputs")
+        cur_out = ex.heap_arrays(NODE, "outputs")
+        cur_op, cur_dom = ex.heap_arrays(NODE, "op_type")[0], ex.heap_arrays(NODE, "domain")[0]
+        nn = new_node.term
+        born = ex.born(VALUE)
+        now0 = E[0][-2]["now"]
+        obl.append(("txn-effect:T12.a_standard_swish_node_on_x_with_a_fresh_output_is_inserted", z3.And(
+            ins_e[2].term == graph, ins_e[4].term == nn, sel(cur_op, nn) == z3.StringVal("Swish"), sel(cur_dom, nn) == z3.StringVal(""),
+            sel(cur_in[1], nn) == 1, sel(sel(cur_in[0], nn), 0) == x_val.term, sel(cur_out[1], nn) == 1, sel(sel(cur_out[0], nn), 0) == b_new, b_new != a_old)))
+        obl.append(("txn-effect:T12.mul_output_replaced_by_the_swish_output_everywhere_and_mul_removed", z3.And(
+            a_old == P.out(node.term, 0), ex.truthy(rauw[4]), rem[0][3].term == node.term, rem[0][2].term == graph)))
+        # facts: Mul of x and Sigmoid(x)
+        s_out = P.out(sig.term, 0)
+        in0, in1 = P.inp(node.term, 0), P.inp(node.term, 1)
+        cur = ex.heap
+        ex.heap = dict(P.snap)
+        try:
+            same = lambda a, b: same_value(ex, a, b)  # noqa: E731
+            facts = z3.And(P.op(node.term) == z3.StringVal("Mul"), P.n_in(node.term) == 2, P.op(sig.term) == z3.StringVal("Sigmoid"), P.n_in(sig.term) == 1,
+                           x_val.term == P.inp(sig.term, 0), x_val.term != null_of(VALUE),
+                           z3.Or(z3.And(in0 == s_out, same(x_val.term, in1)), z3.And(in1 == s_out, same(x_val.term, in0))))
+        finally:
+            for kk, vv in ex.heap.items():
+                cur.setdefault(kk, vv)
+            ex.heap = cur
+        obl.append(("txn-facts:T12.node_is_mul_of_x_and_sigmoid_of_x", facts))
+        # metadata (C08): the new value declares exactly what the Mul output declared
+        shp, ty = ex.heap_arrays(VALUE, "shape")[0], ex.heap_arrays(VALUE, "type")[0]
+        pshp, pty = P.arrays(VALUE, "shape")[0], P.arrays(VALUE, "type")[0]
+        obl.append(("txn-effect:T12.swish_output_declares_what_the_mul_output_declared", z3.And(sel(shp, b_new) == sel(pshp, a_old), sel(ty, b_new) == sel(pty, a_old))))
+        v = z3.Const("v!m12", V)
+        obl.append(("txn-effect:T12.no_existing_value_changes_its_declaration", z3.ForAll([v], z3.Implies(v != b_new, z3.And(sel(shp, v) == sel(pshp, v), sel(ty, v) == sel(pty, v))))))
+        # the Sigmoid may go only when nothing observes its output any more
+        if len(rem) == 2:
+            Pr = Pre(ex, rem[1][-3])
+            hvr = rem[1][-2]["hv"]
+            obl.append(("txn-effect:T12.second_removal_is_the_sigmoid", z3.And(rem[1][3].term == sig.term, rem[1][2].term == graph)))
+            obl.append(("txn-facts:T12.sigmoid_removed_only_when_nothing_observes_its_output", unobserved_except(ex, Pr, graph, Pr.out(sig.term, 0), [], hvr)))
+        return obl
+
+    w.add_contract(Contract(
+        f"{MO}:rewrite_mul_sigmoid_as_swish_ir", params={"graph": Ref(GRAPH)},
+        requires=[("valid_graph", lambda c: z3.And([f for _, f in wf12(c.ex, c["graph"].term)]))],
+        loops={0: LoopSpec(invariant=hook12, label="transactions"), 1: LoopSpec(heap_unchanged=True, label="scan")},
+        track_alloc=True, deep_feasibility=True, ret=NoneT, props=["C02", "C08"], opaque_externals=True, witnesses=["C02_misc_rewrites_family"],
+        modifies=[(NODE, "inputs"), (GRAPH, "nodes"), (GRAPH, "outputs")],
+    ))
+
+    def lemma(world):
+        T = z3.DeclareSort("TensorL")
+        Mul, Sig, Sw = z3.Function("MulL", T, T, T), z3.Function("SigmoidL", T, T), z3.Function("SwishL", T, T)
+        x, y = z3.Const("x", T), z3.Const("y", T)
+        A9 = z3.ForAll([x], Mul(x, Sig(x)) == Sw(x))
+        comm = z3.ForAll([x, y], Mul(x, y) == Mul(y, x))
+        return ([A9, comm], z3.And(Mul(x, Sig(x)) == Sw(x), Mul(Sig(x), x) == Sw(x)))
+    w.add_contract(Contract(f"{MO}:<law-T12>", kind="lemma", ensures=[("mul_of_x_and_sigmoid_of_x_is_swish_in_either_operand_order", lemma)], props=["C02"]))
+    w.trust("A9 x * Sigmoid(x) = Swish(x) with alpha = 1 (ONNX Swish, opset 24); Mul is commutative")
